@@ -67,9 +67,9 @@ Section Spec.
                     (forall e, r = inr e -> e = ESpi \/ e = EBusy \/ (e = EDutyCycleUnsupported /\ cm m' = cm m /\ x_fam x = K127 /\ is_duty (MRx rm) = true)) -> Q r d m') ->
       wp x (k_rx K rm) Q d m;
     it_cad : list item;     (* what CAD needs before do_cad (which programs the CAD parameters itself) *)
-    ok_cad : forall md (Q : unit + rerr -> drv -> mon -> Prop) d m, okm m -> ready m -> valid_all m it_cad ->
-      (forall r m', okm m' -> le_valid m m' -> (is_ok r -> cm m' = CCad) -> (cm m' = cm m \/ cm m' = CCad) ->
-                    (forall e, r = inr e -> plain_err e) -> Q r d m') ->
+    (* md: modulation parameters made from the API's typed values (the spreading factor is one of the 8 enum values) *)
+    ok_cad : forall md (Q : unit + rerr -> drv -> mon -> Prop) d m, (md_sf md < 8)%N -> okm m -> ready m -> valid_all m it_cad ->
+      (forall r m', okm m' -> le_valid m m' -> (is_ok r -> cm m' = CCad) -> (cm m' = cm m \/ cm m' = CCad) -> pin_err r -> Q r d m') ->
       wp x (k_cad K md) Q d m;
     (* reading (and clearing) the interrupt status: the chip may be found to have returned to standby *)
     ok_procirq : forall dm clear (Q : irqstate + rerr -> drv -> mon -> Prop) d m, okm m -> cm m <> CSleep ->
